@@ -60,6 +60,8 @@ def gen_grid_trace(seed, prop, tier):
     g = idx // 4
     tissue_no, cell = divmod(g, GRID_SIZE)
     ne = GRID_NE[cell % len(GRID_NE)]
+    if prop == "C09" and ne < 2:
+        ne = 2   # C09 quantifies over ne = 2..12
     flag = GRID_FLAG[(cell // len(GRID_NE)) % len(GRID_FLAG)]
     ret = GRID_RETAIN[cell // (len(GRID_NE) * len(GRID_FLAG))]
     r_in = R.stream(base * 1_000_000 + tissue_no, "grid-input")
